@@ -149,6 +149,7 @@ func satAdd(a, b int64) int64 {
 
 type LoadPlan struct {
 	Kind   string `json:"kind"`             // val | err | notfound | panic
+	ErrMap bool   `json:"errmap,omitempty"` // bulk, kind err: the loader returns its (partial) map next to the error
 	Omit   []int  `json:"omit,omitempty"`   // bulk: requested keys the loader leaves out
 	Extra  []int  `json:"extra,omitempty"`  // bulk: keys the loader volunteers
 	Points int    `json:"points,omitempty"` // scheduling points inside the loader
@@ -262,6 +263,7 @@ type loadRec struct {
 	Bulk       bool
 	Plan       LoadPlan
 	Ret        map[int]int
+	Rejected   map[int]int // bulk loader that failed but returned a map: values that must never surface
 	OpIdx      int
 	Outcome    string
 }
@@ -607,7 +609,10 @@ func (l loader) bulkDo(keys []int, reload bool, olds []int) (map[int]int, error)
 	switch plan.Kind {
 	case "err":
 		r.fault("loader-error")
-		return nil, errLoad
+		if !plan.ErrMap {
+			return nil, errLoad
+		}
+		r.fault("loader-error-with-map")
 	case "notfound":
 		r.fault("loader-notfound")
 		return nil, otter.ErrNotFound
@@ -637,6 +642,14 @@ func (l loader) bulkDo(keys []int, reload bool, olds []int) (map[int]int, error)
 			r.fault("bulk-extra-key")
 			res[k] = r.valFor(l.op, k, ph)
 		}
+	}
+	if plan.Kind == "err" {
+		// a failing loader that still hands back what it got: none of it may be cached or returned
+		rec.Rejected = map[int]int{}
+		for k, v := range res {
+			rec.Rejected[k] = v
+		}
+		return res, errLoad
 	}
 	rec.Ret = map[int]int{}
 	for k, v := range res {
